@@ -75,6 +75,7 @@ def h_showdown(ctx: Any, n: int, depth: int, hilo: bool = False, boards: int = 1
     pushes: list = []
     folded: list = []
     dealt: dict = {i: [] for i in range(n)}
+    before_collection: list = []
 
     def mon(state: Any, op: Any) -> None:
         ctx.ops += 1
@@ -84,6 +85,22 @@ def h_showdown(ctx: Any, n: int, depth: int, hilo: bool = False, boards: int = 1
             dealt[op.player_index].extend(op.cards)
         if conserve:
             C.check_conservation(ctx, state, type(op).__name__)     # C01 monitor on every deal at once
+        if type(op).__name__ == 'BetCollection' and before_collection:
+            # independent rule for the uncalled part of a bet: only what exceeds the second-highest bet of ANYBODY
+            # (a folder's abandoned bet included) goes back; everything else that was wagered is collected
+            b = before_collection[-1]
+            alive = [i for i in range(n) if state.statuses[i]]
+            cap = sorted(b)[-2]
+            ranked = state.street is not None or state.ante_trimming_status
+            for i in range(n):
+                if len(alive) == 1 and i == alive[0]:
+                    exp_i = 0           # the lone survivor's own bet never enters a pot
+                else:
+                    exp_i = b[i] if not ranked or b[i] <= cap else cap
+                ctx.check(op.bets[i] == exp_i, 'collected-bet-differs-from-the-called-part',
+                          lambda: f'player {i}: bets before {b}, collected {op.bets}')
+            ctx.cover('collected')
+        before_collection.append(list(state.bets))
         if isinstance(op, ChipsPushing):
             if not snap:
                 snap['live'] = list(state.statuses)
@@ -151,7 +168,8 @@ def h_showdown(ctx: Any, n: int, depth: int, hilo: bool = False, boards: int = 1
         total_in = 0
         for c in contrib:
             total_in += c
-        if n_live == 1:
+        if n_live == 1 and sum(1 for i in range(n) if i not in folded) == 1:
+            # everybody else FOLDED (a hand mucked or killed at the showdown is judged by the oracles below)
             ctx.cover('lone-survivor')
             w = live.index(True)
             for i in range(n):
@@ -198,7 +216,7 @@ def h_showdown(ctx: Any, n: int, depth: int, hilo: bool = False, boards: int = 1
             for i in range(n):
                 ctx.check(eng[pi][i] == ora[pi][i], 'pot-award',
                           lambda: f'pot {pi} player {i}: engine {pushes} oracle {exp_pushes}')
-        for g in pushes:
+        for g in pushes if n_live > 1 else []:     # (a single tabled hand left: one record per pot, no board/type)
             ctx.check(g[1] is not None and 0 <= g[1] < len(snap['boards'])
                       and g[2] is not None and 0 <= g[2] < len(types), 'push-index')
         for i in range(n):
@@ -265,7 +283,7 @@ def jobs(tier: str, seed: int) -> list[dict]:
         fx = {str(i): 1000 for i in range(3) if i != seat}
         out.append(dict(name=f'bet-call-raise-fold/n3/hi/short-seat{seat}', fn='h_showdown',
                         params=dict(n=3, depth=0, shape='brf', deck=deck, levels=2, fixed=fx),
-                        budget_s=B, must_cover=[]))
+                        budget_s=B, must_cover=['collected'] + (['dead-money'] if seat == 0 else [])))
     out.append(dict(name='allin/n2/hi/2boards', fn='h_showdown',
                     params=dict(n=2, depth=0, shape='allin', deck=deck, boards=2, levels=2),
                     budget_s=B, must_cover=mc))
